@@ -163,6 +163,7 @@ def main(run: core.Run):
         'K-FAC-free twin; symmetry, PSD, dtype; bit-stability across eval '
         'passes and non-update steps; evaluations = operations checked')
     run.sample(cfgs[len(cfgs) // 2])
+    run.cap('worlds > 1 run under two fixed schedules')
     run.sample(cfgs[-1])
     run.assumptions += ['tensor values from a fixed rational lattice',
                         'quick: one history per configuration (rotating '
